@@ -510,7 +510,10 @@ def string_to_number_rule(ctx, rule, prefix="src/exec/", floor=2):
                 ok, why = False, "%s reads a string as a number with %s: what the float parser accepts (and how it rounds huge values) is no longer what decides" % (top.path, inst)
             else:
                 names = common.deep_call_names(F, fn, t["args"][0])
-                extra = sorted(x for x in names if x not in ("deref", "as_str", "as_ref", "borrow", "as_mut", "deref_mut", "arith_coerced", "decay", "to_key", "substr", "find_next_index", "find_next_word_end", "len", "clone"))
+                TEXT_PREP = {"trim", "trim_start", "trim_end", "trim_matches", "trim_start_matches", "trim_end_matches", "replace", "replacen", "strip_prefix",
+                             "strip_suffix", "to_lowercase", "to_uppercase", "to_ascii_lowercase", "to_ascii_uppercase", "split", "split_whitespace", "splitn",
+                             "rsplit", "split_once", "retain", "remove", "truncate", "filter", "lines", "concat", "join", "repeat", "format", "escape_debug"}
+                extra = sorted(names & TEXT_PREP)
                 if extra:
                     ok, why = False, "%s prepares the text with %s before parsing it as a number: strings the language does not read as numbers become numbers (or the reverse)" % (top.path, extra)
             rep.ob(rule, "string-as-number::%s#%d" % (top.path, sum(1 for b2, t2 in fn.calls() if b2 < bi and t2["callee"].get("name") == "parse")), ok, why, fn.loc(t["line"]), how="str::parse::<f64> of the string itself")
